@@ -363,6 +363,77 @@ theorem overlapping_runs_keep_their_verdict (hookOf : Nat → Nat) (t : List Fil
   rw [(own_response_file_written _ (response_file_per_run.2.2.2 hookOf) t r c).1 h]
   rfl
 
+/-! ## overlapping requests: every hook process is handed its own request -/
+
+theorem ctxExec_own_aux (slot : Nat → Nat) (hinj : ∀ a b, slot a = slot b → a = b) (r : Nat) :
+    ∀ (t : List CtxEv) (s1 s2 : CtxSt),
+      s1.slots (slot r) = s2.slots (slot r) → s1.given r = s2.given r →
+      (t.foldl (ctxStep slot) s1).slots (slot r)
+          = ((t.filter (fun e => e.run == r)).foldl (ctxStep slot) s2).slots (slot r) ∧
+        (t.foldl (ctxStep slot) s1).given r
+          = ((t.filter (fun e => e.run == r)).foldl (ctxStep slot) s2).given r
+  | [], _, _, hf, hs => ⟨hf, hs⟩
+  | e :: t, s1, s2, hf, hs => by
+    by_cases he : e.run = r
+    · have hk : (e.run == r) = true := by simp [he]
+      simp only [List.filter_cons, hk, if_true, List.foldl_cons]
+      apply ctxExec_own_aux slot hinj r t
+      · cases e <;> simp only [CtxEv.run] at he <;> subst he <;> simp [ctxStep, hf]
+      · cases e <;> simp only [CtxEv.run] at he <;> subst he <;> simp [ctxStep, hf, hs]
+    · have hk : (e.run == r) = false := by simp [he]
+      simp only [List.filter_cons, hk, Bool.false_eq_true, if_false, List.foldl_cons]
+      apply ctxExec_own_aux slot hinj r t
+      · have hne : slot r ≠ slot e.run := fun h => he (hinj _ _ h).symm
+        cases e <;> simp only [CtxEv.run] at hne <;> simp [ctxStep, hne, hf]
+      · cases e <;> simp only [CtxEv.run] at he <;> simp [ctxStep, hs, Ne.symm he]
+
+/-- **C14.5 (`own_binding_context`).** When no two requests share the backing array of their
+`BindingContext` slice, what a request's hook process is started with depends on that request's own
+steps only — for every interleaving of any number of requests in flight (to the same binding, to
+other bindings of the same hook, to other hooks). -/
+theorem own_binding_context (slot : Nat → Nat) (hinj : ∀ a b, slot a = slot b → a = b)
+    (t : List CtxEv) (r : Nat) :
+    (ctxExec slot t).given r = (ctxExec slot (t.filter (fun e => e.run == r))).given r :=
+  (ctxExec_own_aux slot hinj r t .init .init rfl rfl).2
+
+/-- the slice `HandleEvent` returns is built in the call (regenerated from the source: a changed
+`return` breaks this proof), hence distinct requests get distinct backing arrays -/
+theorem binding_context_per_request :
+    ShellOp.Facts.c14HandleEventCtxExprs
+      = ["[]bctx.BindingContext{}", "[]bctx.BindingContext{}", "[]bctx.BindingContext{bc}"] ∧
+    ShellOp.Facts.c14HandleEventBcType = "bctx.BindingContext" ∧
+    perRequestContext = true ∧
+    ∀ (linkOf : Nat → Nat) (a b : Nat),
+      contextSlot perRequestContext linkOf a = contextSlot perRequestContext linkOf b → a = b := by
+  refine ⟨by decide, by decide, by decide, ?_⟩
+  intro linkOf a b h
+  have hp : perRequestContext = true := by decide
+  simp only [contextSlot, hp, if_true] at h
+  omega
+
+/-- **C14.5 for the code as it is (`handed_own_request`)**: a request with uid `uid` to `path` that
+`route` gives to hook `h`, binding `b` (that is what `HandleEvent` puts into the context), and whose
+hook process is started later, is started with exactly that — in every interleaving with the
+hand-over and start steps of other requests — and this satisfies the hand-over clause the check
+evaluates on every observed hook process (`checkHanded`): own uid, a hook and binding that
+registered the path. -/
+theorem handed_own_request (hooks : List Hook) (path : Str) (uid : String) (h : Nat) (b : Binding)
+    (hr : route hooks (detect path).1 (detect path).2 = some (h, b))
+    (linkOf : Nat → Nat) (t : List CtxEv) (r : Nat)
+    (ht : t.filter (fun e => e.run == r) = [.hand r ⟨h, b, uid⟩, .start r]) :
+    (ctxExec (contextSlot perRequestContext linkOf) t).given r = [some ⟨h, b, uid⟩] ∧
+      checkHanded hooks path uid ⟨h, b, uid⟩ = none := by
+  constructor
+  · rw [own_binding_context _ (binding_context_per_request.2.2.2 linkOf) t r, ht]
+    simp [ctxExec, ctxStep, CtxSt.init]
+  · obtain ⟨⟨hk, hmem, hid, hb⟩, hc, hw⟩ := route_some hr
+    have hreg : registeredFor hooks path h b = true := by
+      simp only [registeredFor, Bool.and_eq_true, List.any_eq_true, beq_iff_eq]
+      refine ⟨⟨hk, hmem, hid, ?_⟩, ?_⟩
+      · simpa using hb
+      · rw [← hc, ← hw]
+    simp [checkHanded, hreg]
+
 /-! ## `SafeURLString` yields URL-safe ids -/
 
 theorem mem_squeezeDashes : ∀ (l : Str) (c : Char), c ∈ squeezeDashes l → c ∈ l
@@ -504,6 +575,33 @@ theorem shared_file_witness :
     let own := fileExec (responseFileName true (fun _ => 7)) t
     shared.seen 1 = [some allow] ∧ shared.seen 2 = [none] ∧
     own.seen 1 = [some deny] ∧ own.seen 2 = [some allow] := by decide
+
+/-- `handed_own_request` is not vacuous: two requests to the mutating binding of hook 1 in flight,
+both handed over before either process starts -/
+example :
+    let a : Handed := ⟨1, B .mutating "myHook", "u-A"⟩
+    let b : Handed := ⟨1, B .mutating "myHook", "u-B"⟩
+    let t : List CtxEv := [.hand 1 a, .hand 2 b, .start 1, .start 2]
+    route twoHooks (detect "/hooks/my-hook".toList).1 (detect "/hooks/my-hook".toList).2 = some (1, B .mutating "myHook") ∧
+    t.filter (fun e => e.run == 1) = [.hand 1 a, .start 1] ∧
+    (ctxExec (contextSlot perRequestContext (fun _ => 5)) t).given 1 = [some a] ∧
+    (ctxExec (contextSlot perRequestContext (fun _ => 5)) t).given 2 = [some b] := by decide
+
+/-- the excluded variant of `own_binding_context`: the slice is kept with the link (built once when
+the binding is enabled) and every `HandleEvent` writes the request into its only element. Request A
+is handed over, then request B to the same binding, then A's process starts: it finds B's request
+— which the hand-over clause rejects — and B's verdict is relayed to A. -/
+theorem shared_context_witness :
+    let a : Handed := ⟨1, B .mutating "myHook", "u-A"⟩
+    let b : Handed := ⟨1, B .mutating "myHook", "u-B"⟩
+    let t : List CtxEv := [.hand 1 a, .hand 2 b, .start 1, .start 2]
+    let shared := ctxExec (contextSlot false (fun _ => 5)) t
+    let own := ctxExec (contextSlot true (fun _ => 5)) t
+    shared.given 1 = [some b] ∧ shared.given 2 = [some b] ∧ own.given 1 = [some a] ∧ own.given 2 = [some b] ∧
+    checkHanded twoHooks "/hooks/my-hook".toList "u-A" b = some "the-hook-process-was-handed-another-request" ∧
+    checkHanded twoHooks "/hooks/my-hook".toList "u-A" a = none ∧
+    checkHanded twoHooks "/hooks/my-hook".toList "u-A" ⟨2, B .validating "b.example.com", "u-A"⟩
+      = some "handed-to-a-hook-or-binding-that-did-not-register-this-path" := by decide
 
 end Examples
 
